@@ -25,6 +25,7 @@ fn nest_oracle(x: &[u8], t: [u8; 3], pos: usize, fuel: usize) -> Option<(u8, usi
     None
 }
 
+/// E = t0 E t1 | t2 built with `recursive()` (the handle is an `Rc<dyn Parser>`)
 fn nest<'a>(t: [u8; 3]) -> impl Parser<'a, I<'a>, Tr, X<'a>> + Clone {
     recursive::<_, _, X, _, _>(move |e| {
         e.delimited_by(just::<u8, I, X>(t[0]), just::<u8, I, X>(t[1]))
@@ -33,15 +34,30 @@ fn nest<'a>(t: [u8; 3]) -> impl Parser<'a, I<'a>, Tr, X<'a>> + Clone {
     })
 }
 
+/// The same grammar built with `Recursive::declare` / `define` (the handle is a sized `Rc<Indirect>`). Measured: the
+/// `Rc<dyn Parser>` of `recursive()` costs CBMC an order of magnitude more per recursion level (field offsets inside
+/// a dyn-sized RcInner depend on the vtable's alignment, which defeats constant propagation of the reference
+/// counts), so the deeper bounds use this form and `recursive()` itself is decided at the smallest bound.
+fn nest_dd<'a>(t: [u8; 3]) -> Recursive<chumsky::recursive::Indirect<'a, 'a, I<'a>, Tr, X<'a>>> {
+    let mut e = Recursive::declare();
+    e.define(
+        e.clone()
+            .delimited_by(just::<u8, I, X>(t[0]), just::<u8, I, X>(t[1]))
+            .map(|d: Tr| Tr::tok(d.low().wrapping_add(1)))
+            .or(just::<u8, I, X>(t[2]).to(Tr::tok(0))),
+    );
+    e
+}
+
 /// @harness props=C12:Q,C20:T n=3 err=Cheap timeout=900
-/// @shape E = recursive(|e| e.delimited_by(t0, t1).map(depth+1) | t2.to(0))     vs the unrolled grammar (direct recursive oracle)
+/// @shape E = declare(); E.define(E.delimited_by(t0, t1).map(depth+1) | t2.to(0))     vs the unrolled grammar (direct recursive oracle)
 /// @symbolic t0..t2: u8 (the solver also explores t0 == t2 etc.)
-/// @aims recursive(): the self-reference behaves like the grammar expanded as deeply as the input requires
+/// @aims the self-reference behaves like the grammar expanded as deeply as the input requires
 pub fn c12_nesting_body<S: Src>(s: &mut S) {
     let t = [s.u8(), s.u8(), s.u8()];
     let inp = Inp::<3>::any(s);
     let x = inp.get();
-    let p = nest(t);
+    let p = nest_dd(t);
     let r = p.parse(x);
     contract(&r);
     let want = match nest_oracle(x, t, 0, 4) {
@@ -60,15 +76,39 @@ pub fn c12_nesting_body<S: Src>(s: &mut S) {
     core::mem::forget(p);
 }
 
-/// @harness props=C12:Q,C13:Q,C20:T n=3 err=Cheap timeout=900
-/// @shape build E as above; q = E.clone(); b = q.clone().boxed(); drop(E); parse with q, then with b      vs oracle
+/// @harness props=C12:Q,C20:T n=3 err=Cheap timeout=900
+/// @shape E = recursive(|e| e.delimited_by(t0, t1).map(depth+1) | t2.to(0))     vs the unrolled grammar
 /// @symbolic t0..t2: u8
-/// @aims a defined recursive parser may be cloned, boxed and the original dropped: the survivors keep working (no weak handle left dangling)
-pub fn c12_clone_drop_body<S: Src>(s: &mut S) {
+/// @aims recursive() itself (Rc::new_cyclic, weak self-handle upgraded on every call)
+pub fn c12_recursive_fn_body<S: Src>(s: &mut S) {
     let t = [s.u8(), s.u8(), s.u8()];
     let inp = Inp::<3>::any(s);
     let x = inp.get();
     let p = nest(t);
+    let r = p.parse(x);
+    contract(&r);
+    let want = match nest_oracle(x, t, 0, 4) {
+        Some((d, p)) if p == x.len() => Some(Tr::tok(d)),
+        _ => None,
+    };
+    let out = r.output().copied();
+    check!("C12:recursive-equals-unrolling-acceptance", out.is_some() == want.is_some());
+    check!("C12:recursive-equals-unrolling-output", same(&out, &want));
+    cover!("cover:depth-1", out == Some(Tr::tok(1)));
+    cover!("cover:reject", out.is_none());
+    drop(r);
+    core::mem::forget(p);
+}
+
+/// @harness props=C12:Q,C13:Q,C20:T n=3 err=Cheap timeout=900
+/// @shape build E (declare/define) ; q = E.clone(); b = q.clone().boxed(); drop(E); parse with q, drop(q), then parse with b, drop(b)      vs oracle
+/// @symbolic t0..t2: u8
+/// @aims a defined recursive parser may be cloned, boxed and the original dropped: the survivors keep working (no weak handle left dangling); every handle is dropped in the harness (Kani's pointer / free checks)
+pub fn c12_clone_drop_body<S: Src>(s: &mut S) {
+    let t = [s.u8(), s.u8(), s.u8()];
+    let inp = Inp::<3>::any(s);
+    let x = inp.get();
+    let p = nest_dd(t);
     let q = p.clone();
     let b = q.clone().boxed();
     drop(p);
@@ -138,9 +178,10 @@ pub fn c12_mutual_body<S: Src>(s: &mut S) {
 }
 
 crate::harnesses! {
-    c12_nesting [5] = c12_nesting_body;
-    c12_clone_drop [5] = c12_clone_drop_body;
+    c12_recursive_fn [5] = c12_recursive_fn_body;
 }
 crate::harnesses_stub_caller! {
+    c12_nesting [5] = c12_nesting_body;
+    c12_clone_drop [5] = c12_clone_drop_body;
     c12_mutual [9] = c12_mutual_body;
 }
